@@ -8,6 +8,35 @@ from vlib.asmx import abi
 ARGREGS = [7, 6, 2, 1, 8, 9]
 
 
+def _libc_mem(E, st, target):
+    """memcpy/memmove/memset with their C contract (byte copy/fill of a concrete length; a secret-dependent length or
+    pointer is itself a leak and is reported through the address hook by the loads/stores below)."""
+    from vlib.asmx.engine import simp
+    n = conc(simp(st.r[2]))
+    if n is None:
+        if tainted(st.r[2]):
+            E.on_addr(st, None, st.r[2], 0, True)
+        raise Unsupported('%s with a symbolic length' % target)
+    if n > 4096:
+        raise Unsupported('%s length %d' % (target, n))
+    dst, src = st.r[7], st.r[6]
+    if target == 'memset':
+        from z3 import Extract
+        b = Extract(7, 0, st.r[6])
+        for i in range(n):
+            E.store(st, simp(dst + i), 1, b, None)
+    else:
+        data = [E.load(st, simp(src + i), 1, None) for i in range(n)]
+        for i in range(n):
+            E.store(st, simp(dst + i), 1, data[i], None)
+    st.r[0] = dst
+    for i in (1, 2, 6, 7, 8, 9, 10, 11):
+        st.r[i] = fresh(64, 'ret')
+    for i in range(32):
+        st.v[i] = fresh(512, 'vret')
+    st.flags = None
+
+
 def run(obj, sym, args, insn_budget=2000000, loop_bound=2, time_budget=600.0):
     """args: list of ('ptr', name, size, secret, writable) | ('val', int) | ('sym', name, secret) in System V order.
     Returns dict(result held|violated|inconclusive, leaks[...], steps, paths)."""
@@ -15,25 +44,35 @@ def run(obj, sym, args, insn_budget=2000000, loop_bound=2, time_budget=600.0):
     E = Engine(obj, mode='sweep', max_steps=insn_budget, loop_bound=loop_bound)
     E.memo = {}
     E.track_taint = True
+    E.exact_moves = True
     E.called = set()
     E.summaries = {}
     # no generic stub: a call to a routine that is not part of the linked unit would silently drop memory effects (and taint);
     # such a run is inconclusive rather than a pass
+    for f in ('memcpy', 'memmove', 'memset'):
+        E.stubs[f] = _libc_mem
     st, rsp0 = abi.fresh_state(obj, 0)
     base = 0x300000
+    stack = st.regions[0]
+
+    def setarg(i, v):
+        if i < 6:
+            st.r[ARGREGS[i]] = v
+        else:       # System V: 7th argument onwards in 8-byte stack slots above the return address
+            stack.put(rsp0 + 8 * (i - 5) - abi.STACK_BASE, 8, v)
     for i, a in enumerate(args):
         if a[0] == 'ptr':
             _, name, size, secret, writable = a
             nm = name + (SECRET_TAG if secret else '')
             rg = Region(nm, base, size, writable=writable)
             st.regions.append(rg)
-            st.r[ARGREGS[i]] = bv(base, 64)
+            setarg(i, bv(base, 64))
             base += 0x10000
         elif a[0] == 'ptrs':     # array of pointers to secret regions (3DES key triple)
             _, name, n, size, secret = a
             arr = Region(name + '_arr', base, 8 * n, writable=False)
             st.regions.append(arr)
-            st.r[ARGREGS[i]] = bv(base, 64)
+            setarg(i, bv(base, 64))
             b0 = base
             base += 0x10000
             for k in range(n):
@@ -43,9 +82,9 @@ def run(obj, sym, args, insn_budget=2000000, loop_bound=2, time_budget=600.0):
                     arr.bytes[8 * k + j] = BitVecVal((base >> (8 * j)) & 0xff, 8)
                 base += 0x10000
         elif a[0] == 'val':
-            st.r[ARGREGS[i]] = bv(a[1], 64)
+            setarg(i, bv(a[1], 64))
         elif a[0] == 'sym':
-            st.r[ARGREGS[i]] = BitVec(a[1] + (SECRET_TAG if a[2] else ''), 64)
+            setarg(i, BitVec(a[1] + (SECRET_TAG if a[2] else ''), 64))
     leaks = {}
 
     def on_branch(s, ins, cond):
@@ -71,6 +110,10 @@ def run(obj, sym, args, insn_budget=2000000, loop_bound=2, time_budget=600.0):
         out.update(result='violated', leaks=sorted(leaks.items())[:12])
     elif not fin:
         out.update(result='inconclusive', detail='no path reached a return')
+    elif any(a[0] == 'ptr' and a[4] for a in args) and not any(
+            rg.written for s in fin for rg in s.regions if isinstance(rg, Region) and rg.name in [a[1] for a in args if a[0] == 'ptr' and a[4]]):
+        # vacuity guard: only early-exit paths were explored (e.g. the working path was cut at the loop bound)
+        out.update(result='inconclusive', detail='no explored path wrote an output buffer')
     else:
         out['result'] = 'held'
     return out
